@@ -1,3 +1,6 @@
+import MCHap.Properties.C01
+import MCHap.Properties.C02
+import MCHap.Properties.C03
 import MCHap.Properties.C04
 import MCHap.Properties.C05
 import MCHap.Properties.C11
